@@ -539,6 +539,233 @@ def demoState : SwitchState :=
     table := [{ mkey := some 1, priority := 5, cookie := 77, flags := 1, outs := [2] }], lookupCount := 0, matchedCount := 0,
     buffers := [] }
 
+/-! ## theorems over whole request histories -/
+
+/-- a history of decodable messages of the 13 controller-to-switch types with action lists in the modelled vocabulary -/
+def Admissible (ms : List Msg) : Prop := ∀ m ∈ ms, m.kind.isSome ∧ m.WF ∧ m.InScope
+
+/-- what is written for one message of a history: only asynchronous notifications and messages carrying its xid; and
+if it is a request (echo, features, get-config, barrier, statistics, queue-get-config) exactly one message, a
+non-asynchronous one with its xid -/
+def Answered (m : Msg) (g : List Reply) : Prop :=
+  (∀ r ∈ g, Correlated m r) ∧ (IsRequest m → ∃ r, g = [r] ∧ r.xid? = some m.xid ∧ r.isAsync = false)
+
+/-- **history_answered**: for every state and every admissible request history of any length, handling never fails and
+the groups written correspond one-to-one and in order to the messages: every request of the history is answered exactly
+once with its own xid, whatever came before it; nothing else but asynchronous notifications and errors with the
+offending message's xid is written. -/
+theorem history_answered (s : SwitchState) (ms : List Msg) (h : Admissible ms) :
+    ∃ s' gs, run s ms = .ok (s', gs) ∧ List.Forall₂ Answered ms gs := by
+  induction ms generalizing s with
+  | nil => exact ⟨s, [], rfl, .nil⟩
+  | cons m ms ih =>
+    obtain ⟨hk, hwf, hsc⟩ := h m List.mem_cons_self
+    obtain ⟨s1, o, e1, c1⟩ := handled s m hk hwf hsc
+    obtain ⟨s2, gs, e2, f2⟩ := ih s1 (fun m' hm' => h m' (List.mem_cons_of_mem _ hm'))
+    refine ⟨s2, o :: gs, ?_, .cons ⟨c1, ?_⟩ f2⟩
+    · simp only [run, e1, e2]
+    · intro hr
+      obtain ⟨r, h1, h2, h3, _⟩ := one_reply s m hr hwf
+      rw [h1] at e1
+      injection e1 with e1; injection e1 with _ e1
+      exact ⟨r, e1.symm, h2, h3⟩
+
+/-- **barrier in a history**: wherever a barrier request stands in an admissible history, its reply is written after the
+complete answers to everything before it (each earlier request answered once, with its xid) and before anything written
+for what follows. -/
+theorem history_barrier (s : SwitchState) (before after : List Msg) (x : Nat) (hb : Admissible before) (ha : Admissible after) :
+    ∃ s' g1 g2, run s (before ++ .barrierRequest x :: after) = .ok (s', g1 ++ [.barrierReply x] :: g2) ∧
+      List.Forall₂ Answered before g1 ∧ List.Forall₂ Answered after g2 ∧
+      stream (g1 ++ [.barrierReply x] :: g2) = stream g1 ++ .barrierReply x :: stream g2 := by
+  obtain ⟨s1, g1, e1, f1⟩ := history_answered s before hb
+  obtain ⟨s2, g2, e2, f2⟩ := history_answered s1 after ha
+  refine ⟨s2, g1, g2, ?_, f1, f2, by simp [stream]⟩
+  rw [barrier_after s s1 before after g1 x e1, e2]
+
+/-- what one message can change: nothing but the flow table and the packet buffers, except for set_config (the two
+configuration fields), the first hello (the hello flag) and port_mod (config/state bits of ports) -/
+theorem step_cases {s s' : SwitchState} {m : Msg} {o : List Reply} (h : rxMessage s m = .ok (s', o)) :
+    fixedOf s' = fixedOf s ∨
+    (∃ x f l, m = .setConfig x f l ∧ s' = { s with missSendLen := l, configFlags := f }) ∨
+    (∃ x, m = .hello x ∧ s' = (rxHello s).1) ∨
+    (∃ x p hw c mk, m = .portMod x p hw c mk ∧ s' = (rxPortMod s x p hw c mk).1) := by
+  have same : ∀ {o'}, (Except.ok (s, o') : Res) = .ok (s', o) → fixedOf s' = fixedOf s := by
+    intro o' e; injection e with e; injection e with e1 _; subst e1; rfl
+  cases m with
+  | hello x =>
+    have e : rxMessage s (.hello x) = .ok (rxHello s) := rfl
+    rw [e] at h; injection h with h
+    exact .inr (.inr (.inl ⟨x, rfl, by rw [h]⟩))
+  | echoRequest x b => exact .inl (same (o' := [.echoReply x b]) h)
+  | echoReply x b => exact .inl (same (o' := []) h)
+  | vendor x v => exact .inl (same (o' := [sendError x Generated.SwitchDispatch.OFPET_BAD_REQUEST Generated.SwitchDispatch.OFPBRC_BAD_VENDOR]) h)
+  | featuresRequest x => exact .inl (same (o' := [.featuresReply x s.dpid s.maxBuffers 1 s.caps s.actionBits s.ports]) h)
+  | getConfigRequest x => exact .inl (same (o' := [.getConfigReply x s.configFlags s.missSendLen]) h)
+  | barrierRequest x => exact .inl (same (o' := [.barrierReply x]) h)
+  | setConfig x f l =>
+    have e : rxMessage s (.setConfig x f l) = .ok ({ s with missSendLen := l, configFlags := f }, []) := rfl
+    rw [e] at h; injection h with h; injection h with h1 _
+    exact .inr (.inl ⟨x, f, l, rfl, h1.symm⟩)
+  | packetOut x b d acts =>
+    have e : rxMessage s (.packetOut x b d acts) = rxPacketOut s x b d acts := rfl
+    rw [e] at h; exact .inl (rxPacketOut_fixed h)
+  | flowMod x c mk p ck f i hd op b acts =>
+    have e : rxMessage s (.flowMod x c mk p ck f i hd op b acts) = rxFlowMod s x c mk p ck f i hd op b acts := rfl
+    rw [e] at h; exact .inl (rxFlowMod_fixed h)
+  | portMod x p hw c mk =>
+    have e : rxMessage s (.portMod x p hw c mk) = .ok (rxPortMod s x p hw c mk) := rfl
+    rw [e] at h; injection h with h
+    exact .inr (.inr (.inr ⟨x, p, hw, c, mk, rfl, by rw [h]⟩))
+  | statsRequest x req =>
+    have e : rxMessage s (.statsRequest x req) = rxStats s x req := rfl
+    rw [e] at h; rw [rxStats_state h]; exact .inl rfl
+  | queueGetConfigRequest x p =>
+    have e : rxMessage s (.queueGetConfigRequest x p) =
+        (if (!knownPort s p) = true then .ok (s, [sendError x Generated.SwitchDispatch.OFPET_QUEUE_OP_FAILED Generated.SwitchDispatch.OFPQOFC_BAD_PORT])
+         else .ok (s, [.queueGetConfigReply x p])) := rfl
+    rw [e] at h
+    split at h
+    · exact .inl (same h)
+    · exact .inl (same h)
+  | unhandled ty x =>
+    exfalso
+    unfold rxMessage at h
+    cases hl : rxTable.lookup (Msg.unhandled ty x).ofpType with
+    | none => rw [hl] at h; cases h
+    | some k => rw [hl] at h; cases k <;> cases h
+
+/-- the identity of the switch: datapath id, capacities, capability/action bits, statistics ports, and the ports'
+numbers and hardware addresses in order -/
+def Ident (s s' : SwitchState) : Prop :=
+  s'.dpid = s.dpid ∧ s'.maxBuffers = s.maxBuffers ∧ s'.maxEntries = s.maxEntries ∧ s'.caps = s.caps ∧
+  s'.actionBits = s.actionBits ∧ s'.portStats = s.portStats ∧ portKeys s' = portKeys s
+
+theorem step_ident {s s' : SwitchState} {m : Msg} {o : List Reply} (hu : PortsUnique s) (h : rxMessage s m = .ok (s', o)) :
+    Ident s s' ∧ PortsUnique s' := by
+  have fromKeys : portKeys s' = portKeys s → PortsUnique s' := by
+    intro hk
+    have : s'.ports.map (·.no) = s.ports.map (·.no) := by
+      have := congrArg (List.map Prod.fst) hk
+      simpa [portKeys, List.map_map, Function.comp] using this
+    unfold PortsUnique; rw [this]; exact hu
+  rcases step_cases h with hf | ⟨x, f, l, _, rfl⟩ | ⟨x, _, rfl⟩ | ⟨x, p, hw, c, mk, _, rfl⟩
+  · have hp : s'.ports = s.ports := congrArg Fixed.ports hf
+    have hk : portKeys s' = portKeys s := by simp only [portKeys, hp]
+    exact ⟨⟨congrArg Fixed.dpid hf, congrArg Fixed.maxBuffers hf, congrArg Fixed.maxEntries hf, congrArg Fixed.caps hf,
+            congrArg Fixed.actionBits hf, congrArg Fixed.portStats hf, hk⟩, fromKeys hk⟩
+  · exact ⟨⟨rfl, rfl, rfl, rfl, rfl, rfl, rfl⟩, hu⟩
+  · have : (rxHello s).1 = s ∨ (rxHello s).1 = { s with hasSentHello := true } := by
+      unfold rxHello; split
+      · exact .inl rfl
+      · exact .inr rfl
+    rcases this with e | e <;> rw [e] <;> exact ⟨⟨rfl, rfl, rfl, rfl, rfl, rfl, rfl⟩, hu⟩
+  · obtain ⟨hk, hf, _, _⟩ := rxPortMod_frame s x p hw c mk hu
+    exact ⟨⟨congrArg Fixed.dpid hf, congrArg Fixed.maxBuffers hf, congrArg Fixed.maxEntries hf, congrArg Fixed.caps hf,
+            congrArg Fixed.actionBits hf, congrArg Fixed.portStats hf, hk⟩, fromKeys hk⟩
+
+/-- **history_ident**: no request history changes the identity of the switch. -/
+theorem history_ident (s s' : SwitchState) (ms : List Msg) (gs : List (List Reply)) (hu : PortsUnique s)
+    (h : run s ms = .ok (s', gs)) : Ident s s' ∧ PortsUnique s' := by
+  induction ms generalizing s gs with
+  | nil =>
+    simp only [run] at h; injection h with h; injection h with h1 _; subst h1
+    exact ⟨⟨rfl, rfl, rfl, rfl, rfl, rfl, rfl⟩, hu⟩
+  | cons m ms ih =>
+    simp only [run] at h
+    cases hm : rxMessage s m with
+    | error e => rw [hm] at h; cases h
+    | ok r =>
+      obtain ⟨s1, o⟩ := r
+      rw [hm] at h; simp only at h
+      cases hr : run s1 ms with
+      | error e => rw [hr] at h; cases h
+      | ok r2 =>
+        obtain ⟨s2, g⟩ := r2
+        rw [hr] at h; simp only at h
+        injection h with h; injection h with h1 _; subst h1
+        obtain ⟨i1, u1⟩ := step_ident hu hm
+        obtain ⟨i2, u2⟩ := ih s1 g u1 hr
+        obtain ⟨a1, a2, a3, a4, a5, a6, a7⟩ := i1
+        obtain ⟨b1, b2, b3, b4, b5, b6, b7⟩ := i2
+        exact ⟨⟨b1.trans a1, b2.trans a2, b3.trans a3, b4.trans a4, b5.trans a5, b6.trans a6, b7.trans a7⟩, u2⟩
+
+/-- **features after any history**: a features request at the end of any request history is answered with the datapath
+id, the buffer count (C18's `max`), one table, the capability and action bits of the initial switch, and a port list
+with the initial ports' numbers and hardware addresses in the initial order (only config/state bits may differ). -/
+theorem features_after_history (s s' : SwitchState) (ms : List Msg) (gs : List (List Reply)) (x : Nat) (hu : PortsUnique s)
+    (h : run s ms = .ok (s', gs)) :
+    ∃ ports, rxMessage s' (.featuresRequest x) = .ok (s', [.featuresReply x s.dpid s.maxBuffers 1 s.caps s.actionBits ports]) ∧
+      ports.map (fun p => (p.no, p.hw)) = s.ports.map (fun p => (p.no, p.hw)) := by
+  obtain ⟨⟨h1, h2, _, h4, h5, _, h7⟩, _⟩ := history_ident s s' ms gs hu h
+  refine ⟨s'.ports, ?_, h7⟩
+  have e : rxMessage s' (.featuresRequest x) = .ok (s', [.featuresReply x s'.dpid s'.maxBuffers 1 s'.caps s'.actionBits s'.ports]) := rfl
+  rw [e, h1, h2, h4, h5]
+
+/-- the configuration in force after a history: the last set_config, else the initial one -/
+def lastConfig : Nat × Nat → List Msg → Nat × Nat
+  | c, [] => c
+  | _, .setConfig _ f l :: ms => lastConfig (f, l) ms
+  | c, _ :: ms => lastConfig c ms
+
+theorem step_config {s s' : SwitchState} {m : Msg} {o : List Reply} (h : rxMessage s m = .ok (s', o)) :
+    (s'.configFlags, s'.missSendLen) = lastConfig (s.configFlags, s.missSendLen) [m] := by
+  rcases step_cases h with hf | ⟨x, f, l, rfl, rfl⟩ | ⟨x, rfl, rfl⟩ | ⟨x, p, hw, c, mk, rfl, rfl⟩
+  · have e1 := congrArg Fixed.configFlags hf
+    have e2 := congrArg Fixed.missSendLen hf
+    have e1' : s'.configFlags = s.configFlags := e1
+    have e2' : s'.missSendLen = s.missSendLen := e2
+    rw [e1', e2']
+    cases m with
+    | setConfig x f l =>
+      have e : rxMessage s (.setConfig x f l) = .ok ({ s with missSendLen := l, configFlags := f }, []) := rfl
+      rw [e] at h; injection h with h; injection h with h1 _; subst h1
+      simp only [lastConfig] at *
+      rw [← e1', ← e2']
+    | _ => rfl
+  · rfl
+  · have : (rxHello s).1 = s ∨ (rxHello s).1 = { s with hasSentHello := true } := by
+      unfold rxHello; split
+      · exact .inl rfl
+      · exact .inr rfl
+    rcases this with e | e <;> rw [e] <;> rfl
+  · obtain ⟨h1, h2⟩ := rxPortMod_cfg s x p hw c mk
+    rw [h1, h2]; rfl
+
+/-- **get-config after any history**: the reply reports exactly the last set_config of the history (or the initial
+configuration when there was none), however many other messages came in between. -/
+theorem config_after_history (s s' : SwitchState) (ms : List Msg) (gs : List (List Reply)) (y : Nat)
+    (h : run s ms = .ok (s', gs)) :
+    rxMessage s' (.getConfigRequest y) =
+      .ok (s', [.getConfigReply y (lastConfig (s.configFlags, s.missSendLen) ms).1 (lastConfig (s.configFlags, s.missSendLen) ms).2]) := by
+  have key : (s'.configFlags, s'.missSendLen) = lastConfig (s.configFlags, s.missSendLen) ms := by
+    induction ms generalizing s gs with
+    | nil => simp only [run] at h; injection h with h; injection h with h1 _; subst h1; rfl
+    | cons m ms ih =>
+      simp only [run] at h
+      cases hm : rxMessage s m with
+      | error e => rw [hm] at h; cases h
+      | ok r =>
+        obtain ⟨s1, o⟩ := r
+        rw [hm] at h; simp only at h
+        cases hr : run s1 ms with
+        | error e => rw [hr] at h; cases h
+        | ok r2 =>
+          obtain ⟨s2, g⟩ := r2
+          rw [hr] at h; simp only at h
+          injection h with h; injection h with h1 _; subst h1
+          have h1 := step_config hm
+          have h2 := ih s1 g hr
+          rw [h2]
+          have : lastConfig (s.configFlags, s.missSendLen) (m :: ms) = lastConfig (lastConfig (s.configFlags, s.missSendLen) [m]) ms := by
+            cases m <;> rfl
+          rw [this, ← h1]
+  have e : rxMessage s' (.getConfigRequest y) = .ok (s', [.getConfigReply y s'.configFlags s'.missSendLen]) := rfl
+  rw [e]
+  have k1 := congrArg Prod.fst key
+  have k2 := congrArg Prod.snd key
+  simp only at k1 k2
+  rw [k1, k2]
+
 /-! ## non-vacuity -/
 
 example : IsRequest (.statsRequest 5 (.queue 9 3)) ∧ Msg.WF (.statsRequest 5 (.queue 9 3)) := ⟨trivial, trivial⟩
